@@ -91,7 +91,9 @@ fn unit_shape(r: &mut Rng, shape: u8, len: usize) -> Vec<f64> {
                     }
                 }
                 let c = if r.chance(0.5) { (r.below(17) as f64 - 8.0) * 0.25 } else { r.uniform(-2.0, 2.0) };
-                let flat = 1 + r.below(150);
+                // mostly short quiet stretches, some of hundreds to thousands of values (longer than most windows,
+                // and than whatever a view may have queued up during the volatile stretch)
+                let flat = if r.chance(0.15) { 150 + r.below(2850) } else { 1 + r.below(150) };
                 for _ in 0..flat {
                     if i < len {
                         v.push(c);
@@ -138,9 +140,22 @@ fn unit_shape(r: &mut Rng, shape: u8, len: usize) -> Vec<f64> {
             }
         }
         14 => {
-            // a short random pattern on the grid, repeated for ever (period 1..48)
-            let p = 1 + r.below(48);
-            let pat: Vec<f64> = (0..p).map(|_| (r.below(17) as f64 - 8.0) * 0.25).collect();
+            // a short random pattern on the grid, repeated for ever (period 1..48); or, in 30% of the cases, one
+            // "session" repeated for ever: a few volatile off-grid values, then the last one held for a stretch
+            // that is longer than most windows (period 3..120) - every period drives a large-to-flat transition
+            // through the window, with whatever rounding residue that leaves behind
+            let pat: Vec<f64> = if r.chance(0.3) {
+                let k = 1 + r.below(20);
+                let f = 2 + r.below(100);
+                let mut v: Vec<f64> = (0..k).map(|_| r.uniform(-2.0, 2.0)).collect();
+                let held = v[k - 1];
+                v.extend(std::iter::repeat(held).take(f));
+                v
+            } else {
+                let p = 1 + r.below(48);
+                (0..p).map(|_| (r.below(17) as f64 - 8.0) * 0.25).collect()
+            };
+            let p = pat.len();
             for i in 0..len {
                 v.push(pat[i % p]);
             }
